@@ -62,6 +62,8 @@ fn main() {
         "c15" => props::c15::run(&args),
         "c16" => props::c16::run(&args),
         "c17" => props::c17::run(&args),
+        "c18" => props::c18::run(&args),
+        "c19" => props::c19::run(&args),
         "c20" => props::c20::run(&args),
         "ind" => props::ind::run(&args),
         "dump" => props::dump::run(&args),
